@@ -458,6 +458,18 @@ func C16Digest() string {
 			}())
 		}
 	}
+	// wide sources (thousands of distinct identifiers, constants, locals): the compiled bytes, and run-time errors raised
+	// in blocks whose entries differ in letter case only (the real map order of this process decides what a range sees)
+	for _, fam := range gen.DenseFamilies(false) {
+		if strings.HasPrefix(fam.Name, "dense-idents-") || fam.Name == "dense-ints-3" || fam.Name == "dense-consts-330" || fam.Name == "dense-locals-330" {
+			p := impl.Parse(fam.Src)
+			d, _ := impl.Dump(p.Prog)
+			fmt.Fprintf(h, "%s %x\n", fam.Name, sha256.Sum256(d))
+		}
+	}
+	for _, src := range []string{"def a { maxConns = 1; maxconns = 2; MAXCONNS = 3; maxCONNS = 4; x = MaxConns }", "def a { ab = 1; aB = 2; Ab = 3; print AB }"} {
+		fmt.Fprintln(h, impl.Interpret(src).Summary())
+	}
 	// colliding keys / several errors at once through Unmarshal (map order inside one process is random)
 	for _, src := range c16UnmSources {
 		for _, tn := range []string{"A", "Outer", "sliceA"} {
